@@ -80,6 +80,15 @@ def _job(job):
             tag = f":plist-{plist_side}" if plist_side and f != g else ''
             c = trees[f].diff(trees[g]).edited_cost()
             if c != 0:
+                if tag.endswith('plist-target'):
+                    # the listed finding is a WHOLESALE Replace of the document by the plist wrapper: any other non-zero cost
+                    # is a different violation
+                    try:
+                        expected = graphtage.Replace(trees[f], trees[g]).bounds().upper_bound
+                    except Exception:
+                        expected = None
+                    if c != expected:
+                        tag = tag + ':not-the-wholesale-replace'
                 fails.append({'what': f"same data loaded from {f} and {g} diffs with cost {c} (data {doc!r})",
                               'class': f'c09-nonzero-cost{tag}'})
             if f != g and 'plist' not in (f, g) and not (trees[f] == trees[g]):
@@ -88,9 +97,16 @@ def _job(job):
             if exc is not None or rc != 0:
                 fails.append({'what': f"CLI on {f} vs {g} of the same data: exit {rc}, exception {exc!r} (data {doc!r})",
                               'class': f'c09-cli-nonzero{tag}'})
-        if len({v[0] for v in third_costs.values()}) > 1 or len({v[1] for v in third_costs.values()}) > 1:
-            pl = third_costs['plist'] != third_costs['json'] and len({third_costs[k] for k in ('json', 'json5', 'yaml')}) == 1
-            fails.append({'what': f"cost against a third document depends on the format: {third_costs} (data {doc!r} vs {third!r})",
+        # the format's tree as SOURCE of the comparison with the third document
+        if len({v[0] for v in third_costs.values()}) > 1:
+            fails.append({'what': f"cost of <format tree>.diff(third document) depends on the format: "
+                                  f"{ {k: v[0] for k, v in third_costs.items()} } (data {doc!r} vs {third!r})",
+                          'class': 'c09-third-doc-cost:as-source'})
+        # ... and as TARGET (a plist target is the listed finding plist-target: wholesale Replace)
+        if len({v[1] for v in third_costs.values()}) > 1:
+            pl = third_costs['plist'][1] != third_costs['json'][1] and len({third_costs[k][1] for k in ('json', 'json5', 'yaml')}) == 1
+            fails.append({'what': f"cost of third document.diff(<format tree>) depends on the format: "
+                                  f"{ {k: v[1] for k, v in third_costs.items()} } (data {doc!r} vs {third!r})",
                           'class': 'c09-third-doc-cost' + (':plist' if pl else '')})
     except Exception as ex:
         fails.append({'what': f"{type(ex).__name__}: {ex} (data {doc!r})", 'class': f'c09-exception:{type(ex).__name__}'})
